@@ -43,6 +43,15 @@ func (c *compiler) floatOrByteAsInt(src value.Value, from ddpIrType) value.Value
 	}
 }
 
+// operands of the bitwise operators (logisch und/oder/kontra):
+// two Bytes stay Bytes, otherwise both operands are widened to Zahl
+func (c *compiler) logicOperands(lhs value.Value, lhsTyp ddpIrType, rhs value.Value, rhsTyp ddpIrType) (value.Value, value.Value, ddpIrType) {
+	if lhsTyp == c.ddpbytetyp && rhsTyp == c.ddpbytetyp {
+		return lhs, rhs, c.ddpbytetyp
+	}
+	return c.floatOrByteAsInt(lhs, lhsTyp), c.floatOrByteAsInt(rhs, rhsTyp), c.ddpinttyp
+}
+
 func (c *compiler) intOrByteAsFloat(src value.Value, from ddpIrType) value.Value {
 	switch from {
 	case c.ddpinttyp:
